@@ -2993,9 +2993,32 @@ fn handshake_phase(run: &Run, seed: u64, scale: u32) {
 	} else {
 		run.inconclusive("no nonce captured from initiate");
 	}
-	for k in 0..(if scale == 0 { 1 } else { 4 }) {
-		// the same Handshake object on both ends of one socket
+	for k in 0..(if scale == 0 { 2 } else { 4 }) {
+		// the same Handshake object on both ends of one socket — on a fresh object, and after it has initiated
+		// 1 / 99 / 150 outbound handshakes with another node (a node remembers a bounded number of its own nonces)
 		let hs = Arc::new(Handshake::new(genesis, P2PConfig::default()));
+		let n_prior = [0usize, 150, 99, 1][k % 4];
+		if n_prior > 0 {
+			let other = Handshake::new(genesis, P2PConfig::default());
+			let mut done = 0usize;
+			for _ in 0..n_prior {
+				let hs_o = hs.clone();
+				let t = thread::spawn(move || {
+					let mut c = TcpStream::connect(laddr).expect("connect");
+					let _ = c.set_read_timeout(Some(Duration::from_secs(10)));
+					hs_o.initiate(caps, Difficulty::from_num(1), PeerAddr(self_addr), &mut c).is_ok()
+				});
+				let (mut srv, _) = listener.accept().expect("accept");
+				let _ = srv.set_read_timeout(Some(Duration::from_secs(10)));
+				let ra = other.accept(caps, Difficulty::from_num(1), &mut srv);
+				drop(srv);
+				if t.join().unwrap_or(false) && ra.is_ok() {
+					done += 1;
+				}
+			}
+			run.count("handshake_ok", done as u64);
+			run.set_max("max_outbound_handshakes_before_a_self_connection", done as u64);
+		}
 		let hs_i = hs.clone();
 		let t = thread::spawn(move || {
 			let mut c = TcpStream::connect(laddr).expect("connect");
@@ -3006,7 +3029,7 @@ fn handshake_phase(run: &Run, seed: u64, scale: u32) {
 		drop(srv);
 		let ri = t.join().expect("self initiate");
 		run.eval(&format!("handshake|self_loop|{}", k), true);
-		let replay = json!({"case": "initiate and accept of the same Handshake connected to each other"});
+		let replay = json!({"case": "initiate and accept of the same Handshake connected to each other", "outbound_handshakes_before": n_prior});
 		match &ra {
 			Err(Error::PeerWithSelf) => run.count("handshake_self_refused", 1),
 			Err(e) => {
@@ -3229,6 +3252,7 @@ fn main() {
 	run.require("within-limit frames accepted", run.counter("frames_within_limit_accepted"), q(15, 100, 100));
 	run.require("limit cases under Mainnet parameters", run.counter("limit_cases_under_mainnet_parameters"), q(20, 200, 200));
 	run.require("unknown-type frames around / above the chunk size skipped in sync (Mainnet parameters)", run.counter("mainnet_unknown_frames_followed_by_intact_message"), q(6, 18, 18));
+	run.require("self connection attempted after more than 100 outbound handshakes of the same node", run.counter("max_outbound_handshakes_before_a_self_connection"), 101);
 	run.require("contradictory counts refused", run.counter("count_contradictions_refused"), q(40, 40, 40));
 	run.require("successful handshakes", run.counter("handshake_ok"), q(6, 18, 18));
 	run.require("different genesis refused", run.counter("handshake_genesis_refused"), q(6, 18, 18));
